@@ -58,7 +58,8 @@ for d in sorted(glob.glob(os.path.join(V, "seeded", "C*-*"))):
     json.dump(meta, open(mp, "w"), indent=1)
     rows.append("| %s | %s | %s | %s | %s |" % (sid, meta["property"], meta["change"].replace("|", "\\|"),
                                                meta["needs_to_manifest"].replace("|", "\\|"),
-                                               ", ".join("%s (%d)" % (c, r[c][1]) for c in caught) or "-"))
+                                               ", ".join("%s (%d)" % (c, r[c][1]) for c in caught)
+                                               or ("- (outside the property as stated, see meta.json)" if meta.get("note") else "-")))
 # ---- behaviour-preserving changes: every check must stay quiet
 bres = {}
 for lg in logs:
